@@ -114,15 +114,11 @@ func ruleFRTagSkip(c *Ctx) {
 			return false
 		}
 		ia, ok := ld.X.(*ssa.IndexAddr)
-		if !ok || ia.X != input {
+		if !ok {
 			return false
 		}
-		bo, ok := ia.Index.(*ssa.BinOp)
-		if !ok || bo.Op != token.ADD || bo.X != ssa.Value(idx) {
-			return false
-		}
-		k, isC := constInt(bo.Y)
-		return isC && k == 1
+		root, base, k, ok := elementPos(ia)
+		return ok && (root == input || sameTerm(root, input)) && base == ssa.Value(idx) && k == 1
 	}
 	reach := bs.reachUnderSym(fn, isNext, byteDomain())
 	for n, j := range jumps {
@@ -244,8 +240,20 @@ func tagEndShapeIn(v ssa.Value, input ssa.Value, idx *ssa.Phi, depth int) (bool,
 					return true, ""
 				}
 				sl, isSl := x.Call.Args[0].(*ssa.Slice)
-				if !isSl || !isInput(sl.X, env) || sl.High != nil {
+				if !isSl {
 					return false, "the search does not run over the rest of the input"
+				}
+				if !isInput(sl.X, env) || sl.High != nil {
+					// a re-slice of a re-slice: input[i:][1:]
+					root, base, k, okR := sliceRoot(sl)
+					if !okR || !isInput(root, env) {
+						return false, "the search does not run over the rest of the input"
+					}
+					if !searchStartOKOff(base, k, env, idx) {
+						return false, "the search for '>' starts later than the byte after `<`"
+					}
+					sawIndex = true
+					return true, ""
 				}
 				if sl.Low != nil && !searchStartOK(sl.Low, env, idx) {
 					return false, "the search for '>' starts later than the byte after `<`"
@@ -299,7 +307,19 @@ func calleeResultsAny(v ssa.Value, outer *callEnv) ([]ssa.Value, *callEnv, bool)
 
 // searchStartOK: low is the cursor or the cursor plus one (the byte after `<`), possibly seen through helper
 // parameters; inside a single-argument search helper (idx == nil, env == nil) it is 0.
+// searchStartOKOff: the start base + extra (base nil: the constant extra).
+func searchStartOKOff(base ssa.Value, extra int64, env *callEnv, idx *ssa.Phi) bool {
+	if base == nil {
+		return idx == nil && env == nil && extra == 0
+	}
+	return searchStartOKWith(base, extra, env, idx)
+}
+
 func searchStartOK(low ssa.Value, env *callEnv, idx *ssa.Phi) bool {
+	return searchStartOKWith(low, 0, env, idx)
+}
+
+func searchStartOKWith(low ssa.Value, extra int64, env *callEnv, idx *ssa.Phi) bool {
 	var off func(v ssa.Value, env *callEnv, d int) (int64, bool)
 	off = func(v ssa.Value, env *callEnv, d int) (int64, bool) {
 		v, env = env.resolve(v)
@@ -322,9 +342,10 @@ func searchStartOK(low ssa.Value, env *callEnv, idx *ssa.Phi) bool {
 		return 0, false
 	}
 	if k, ok := constInt(low); ok {
-		return idx == nil && env == nil && k == 0
+		return idx == nil && env == nil && k+extra == 0
 	}
 	k, ok := off(low, env, 0)
+	k += extra
 	return ok && k >= 0 && k <= 1
 }
 
